@@ -31,6 +31,7 @@ def replay_with(g, rng, base, schedule, battery):
 
 def run(ctx):
     g = gtirb_from_repo.load()
+    lookups.repeated_events(ctx, g, 'schedule-final-wrong')
     rng = ctx.rng
     nh, ln = (40, 40) if ctx.quick else (600, 80)
     all_hists = []
